@@ -577,6 +577,17 @@ func constTo(c constant.Value, rt reflect.Type) (reflect.Value, error) {
 			return out, fmt.Errorf("constant %s for string", c)
 		}
 		out.SetString(constant.StringVal(c))
+	case reflect.Slice:
+		// []byte("text") and conversions to defined byte-slice types
+		if c.Kind() == constant.String && rt.Elem().Kind() == reflect.Uint8 {
+			b := []byte(constant.StringVal(c))
+			out.Set(reflect.MakeSlice(rt, len(b), len(b)))
+			for i := range b {
+				out.Index(i).SetUint(uint64(b[i]))
+			}
+			return out, nil
+		}
+		return out, fmt.Errorf("constant %s for kind %s", c, rt.Kind())
 	default:
 		return out, fmt.Errorf("constant %s for kind %s", c, rt.Kind())
 	}
